@@ -108,6 +108,12 @@ func (t *ProcessorTask) Do(ctx context.Context, b *Batch) error {
 	}
 	t.metrics.Observe(len(recsOut), start)
 
+	if len(recsOut) > len(recsIn) {
+		// More results than records: the surplus cannot be attributed to any
+		// record and marking it would index past the batch.
+		return cerrors.Errorf("processor was given %d record(s), but returned %d", len(recsIn), len(recsOut))
+	}
+
 	if len(recsIn) > len(recsOut) {
 		// Processor skipped some records, append empty records, so that we can
 		// mark them to be retried.
